@@ -14,7 +14,6 @@ catch edge) at its start.
 namespace AgVerif.Spec.ReachDef
 
 abbrev Reg := Nat
-abbrev Loc := Int
 
 structure Stmt where
   lhs : Option Reg
@@ -34,15 +33,15 @@ deriving Repr
 def start (P : Prog) (v : Nat) : Nat := ((P.nodes.take v).map List.length).sum
 
 /-- statement `s` is the statement numbered `l`, and it belongs to node `v` -/
-def StmtAt (P : Prog) (v : Nat) (l : Loc) (s : Stmt) : Prop :=
+def StmtAt (P : Prog) (v : Nat) (l : Int) (s : Stmt) : Prop :=
   ∃ ss k, P.nodes[v]? = some ss ∧ ss[k]? = some s ∧ l = ((start P v + k : Nat) : Int)
 
 /-- the statement numbered `l` of node `v` assigns register `x` -/
-def DefinesAt (P : Prog) (v : Nat) (l : Loc) (x : Reg) : Prop :=
+def DefinesAt (P : Prog) (v : Nat) (l : Int) (x : Reg) : Prop :=
   ∃ s, StmtAt P v l s ∧ s.lhs = some x
 
 /-- `-k` is the definition of the k-th parameter, which is register `x` -/
-def ParamDef (P : Prog) (d : Loc) (x : Reg) : Prop :=
+def ParamDef (P : Prog) (d : Int) (x : Reg) : Prop :=
   ∃ k, P.params[k]? = some x ∧ d = -((k + 1 : Nat) : Int)
 
 /-- an edge of the node graph (normal or catch) -/
@@ -64,17 +63,17 @@ def WalkFromDummy (P : Prog) : List Nat → Nat → Prop
 def Clear (P : Prog) (w : Nat) (x : Reg) : Prop := ∀ l, ¬ DefinesAt P w l x
 
 /-- `d` is the last definition of `x` inside node `m` -/
-def LastDefIn (P : Prog) (m : Nat) (x : Reg) (d : Loc) : Prop :=
+def LastDefIn (P : Prog) (m : Nat) (x : Reg) (d : Int) : Prop :=
   DefinesAt P m d x ∧ ∀ l, d < l → ¬ DefinesAt P m l x
 
 /-- definition `d` of register `x` reaches the start of node `v`: there is a path from the node
     holding `d` (or from the dummy entry node for a parameter) to `v` on which `x` is not redefined -/
-def ReachesEntry (P : Prog) (d : Loc) (x : Reg) (v : Nat) : Prop :=
+def ReachesEntry (P : Prog) (d : Int) (x : Reg) (v : Nat) : Prop :=
   ∃ mids, (∀ w ∈ mids, Clear P w x) ∧
     ((∃ m, LastDefIn P m x d ∧ Walk P m mids v) ∨ (ParamDef P d x ∧ WalkFromDummy P mids v))
 
 /-- definition `d` of register `x` reaches the use of `x` by the statement numbered `u` -/
-def Reaches (P : Prog) (d : Loc) (x : Reg) (u : Loc) : Prop :=
+def Reaches (P : Prog) (d : Int) (x : Reg) (u : Int) : Prop :=
   ∃ v s, StmtAt P v u s ∧ x ∈ s.uses ∧
     ((DefinesAt P v d x ∧ d < u ∧ ∀ l, d < l → l < u → ¬ DefinesAt P v l x) ∨
      ((∀ l, l < u → ¬ DefinesAt P v l x) ∧ ReachesEntry P d x v))
